@@ -26,8 +26,8 @@ PROP = dict(
     assumptions=['OpenSSL libcrypto writes name bytes verbatim', 'test CA /verif/pki/ca_ec is valid at the pinned time', 'expected names are C strings (no embedded NUL)'],
     targets=[
         dict(name='c05_names', src=_SRC, libs=['-lcrypto'], wraps=WRAPS, env=_ENV,
-             quick=dict(cases=40000, secs=80), thorough=dict(cases=1000000, secs=560)),
+             quick=dict(cases=40000, secs=70), thorough=dict(cases=1000000, secs=500)),
         dict(name='c05_names_allperm', src=_SRC, libs=['-lcrypto'], wraps=WRAPS, env=_ENV, args=['--allperm', '--hs-den', '64'],
-             thorough=dict(cases=60000, secs=280)),
+             thorough=dict(cases=60000, secs=240)),
     ],
 )
